@@ -37,8 +37,17 @@ RTOL = 2e-5
 
 @st.composite
 def cases(draw, tier):
-  mspec = draw(G.model_specs(max_nodes=10 if tier == 'thorough' else 6,
-                             max_subgraphs=2, reuse_const=True))
+  if draw(st.integers(0, 2)) == 0:
+    # chains of weight-carrying ops with few distinct sizes: weights re-used by
+    # several consumers with other rewritten ops in between
+    mspec = draw(G.model_specs(max_nodes=10 if tier == 'thorough' else 6, min_nodes=3,
+                               max_subgraphs=1, reuse_const=True, reuse_odds=1,
+                               dim_choices=[4], export_prob=False,
+                               ops=['FULLY_CONNECTED', 'FULLY_CONNECTED', 'BATCH_MATMUL',
+                                    'TANH', 'ADD', 'RELU']))
+  else:
+    mspec = draw(G.model_specs(max_nodes=10 if tier == 'thorough' else 6,
+                               max_subgraphs=2, reuse_const=True))
   names = engine.op_out_names(mspec)
   if draw(st.integers(0, 1)):
     algo, c = draw(st.sampled_from(R.FLOAT_COMPUTE_CFGS))
@@ -71,6 +80,28 @@ def _drq_bound(op, node, xmax, w_real, adj_y=False, w_pos=1):
 
 
 def check_case(case):
+  """Cases that would trigger a recorded runtime-UB finding run in a throw-away
+  process, so that they cannot corrupt the worker for later cases."""
+  from vq import isolated
+  u = kfpred.unsafe_findings(case)
+  if not u or os.environ.get('VQ_ISOLATED_CHILD'):
+    return check_inproc(case)
+  if not kfpred.take_isolation_budget(u, per_finding=3):
+    return core.result(False, ['execution_excluded:' + x for x in u])
+  os.environ['VQ_ISOLATED_CHILD'] = '1'
+  try:
+    status, r = isolated.run('vq.props.c06', 'check_inproc', case)
+  finally:
+    os.environ.pop('VQ_ISOLATED_CHILD', None)
+  if status == 'violation':
+    raise r
+  if status == 'abort':
+    raise Violation('runtime_abort', 'interpreter died with signal %s on a model matching %s' % (r, u))
+  r['labels'] = list(r['labels']) + ['isolated:' + x for x in u]
+  return r
+
+
+def check_inproc(case):
   out = engine.run(case)
   labels = []
   if out.stage == 'empty_recipe':
@@ -84,6 +115,9 @@ def check_case(case):
     ms = skeleton.match(src, res)
   except Violation as v:
     return core.result(False, labels + ['skeleton_mismatch(C02):' + v.tag])
+  # which mode did the recipe select for each op (reference resolution)
+  from vq.ref import plan
+  rp = plan.resolve_model(mspec, plan.ref_recipe(case, out))
   # decode every rewritten constant independently
   overrides, n_rewritten = {}, 0
   for si, (m, sg, og) in enumerate(zip(ms, src['subgraphs'], res['subgraphs'])):
@@ -114,7 +148,8 @@ def check_case(case):
       if not all(np.all(np.isfinite(v)) for v, _ in tf_.values() if v.dtype.kind == 'f'):
         labels.append('nonfinite_reference:skipped')
         continue
-      drq_here = _per_op(si, sgs, ms[si], src['subgraphs'][si], res, tq, labels)
+      drq_here = _per_op(si, sgs, ms[si], src['subgraphs'][si], res, tq, labels,
+                         [p.mode for p in rp[si]['ops']])
       has_drq = has_drq or drq_here
       if not drq_here:
         amax = max([float(np.max(np.abs(v))) for v, _ in tf_.values() if v.dtype.kind == 'f' and v.size] + [0.0])
@@ -140,7 +175,7 @@ def check_case(case):
   return core.result(n_rewritten > 0, sorted(set(labels)))
 
 
-def _per_op(si, sgs, m, sg_src, res, tq, labels):
+def _per_op(si, sgs, m, sg_src, res, tq, labels, modes):
   """Re-execute every original op as a single-op float model on what it saw."""
   og = res['subgraphs'][si]
   prod = fb.producers(og)
@@ -193,26 +228,42 @@ def _per_op(si, sgs, m, sg_src, res, tq, labels):
         continue
       d = float(np.max(np.abs(got - want))) if want.size else 0.0
       scale_ = 1 + float(np.max(np.abs(want))) if want.size else 1.0
-      if drq_w is not None and node['op'] != 'EMBEDDING_LOOKUP':
+      if drq_w is not None and node['op'] != 'EMBEDDING_LOOKUP' and modes[k] == 'drq':
+        # only an op the recipe put in dynamic-range mode may use the
+        # activation-quantization allowance; weight-only / fp16 / unselected
+        # ops must agree to float rounding however they are wired
         any_drq = True
         bound = _drq_bound(node['op'], node, xmax, drq_w[1],
                            adj_y=bool(node.get('opts', {}).get('adjY')), w_pos=drq_w[0]) + RTOL * scale_
         if d > bound:
           raise Violation('dynamic_range_op_outside_bound',
                           'sg%d op%d %s: |out - float op with dequantized weights| = %.4g > bound %.4g (max|x|=%.4g)' % (
-                              si, k, node['op'], d, bound, xmax))
+                              si, k, node['op'], d, bound, xmax), data={'op': node['op'], 'si': si, 'k': k})
         labels.append('drq_op_checked')
       else:
         if d > RTOL * scale_ * 5:
           raise Violation('float_op_differs',
                           'sg%d op%d %s output %d: differs from the float op on the same inputs by %.4g' % (
-                              si, k, node['op'], j, d))
+                              si, k, node['op'], j, d), data={'op': node['op'], 'si': si, 'k': k})
   return any_drq
 
 
 from vq import kfpred
-kf_dw_drq_tensorwise = kfpred.dw_drq_tensorwise
-kf_emb_int4_odd_width = kfpred.emb_int4_odd_width
+
+
+def _op_specific(pred, op):
+  """The finding must be about the operator the violation names (when it names one)."""
+  def f(case, violation):
+    d = getattr(violation, 'data', None)
+    if isinstance(d, dict) and d.get('op') and d['op'] != op:
+      return False
+    return pred(case, violation)
+  return f
+
+
+kf_dw_drq_tensorwise = _op_specific(kfpred.dw_drq_tensorwise, 'DEPTHWISE_CONV_2D')
+kf_emb_int4_odd_width = _op_specific(kfpred.emb_int4_odd_width, 'EMBEDDING_LOOKUP')
+kf_bmm_drq_multibatch = _op_specific(kfpred.bmm_drq_multibatch, 'BATCH_MATMUL')
 
 
 def phases(tier):
